@@ -655,4 +655,120 @@ theorem normSegs_of_normal (segs acc : List Str) (h : ∀ a ∈ segs, normalSeg 
     simp [normalSeg] at hx
     simp [normSegs, hx, ih _ (fun a ha => h a (by simp [ha]))]
 
+/-! ### `normalise_paths`: sentinel tests and the normalisation loop -/
+
+/-- a raw sentinel test (`self.f == SENTINEL`) never fires on a string -/
+theorem sentinelHit_raw_str (sent p : Str) : sentinelHit false sent (.atom (.str p)) = some false := by
+  simp [sentinelHit]
+
+/-- a raw sentinel test fires only on the `Path` equal to the sentinel -/
+theorem sentinelHit_raw_true (sent : Str) (v : PyVal) (h : sentinelHit false sent v = some true) :
+    v = .atom (.path sent) := by
+  unfold sentinelHit at h
+  split at h <;> simp_all
+
+/-- raw sentinel tests leave alone every field that does not hold a `Path` object (a string, a
+    list, ...: anything a settings file, `--config` or the command line delivers) -/
+theorem aget_applySentinels_nonpath (dir pkg : Str) (tests : List (Str × Bool × Str × SentinelRepl))
+    (s s' : Settings) (k : Str) (v : PyVal) (hraw : ∀ e ∈ tests, e.2.1 = false)
+    (hv : ∀ q, v ≠ .atom (.path q))
+    (hk : aget k s = some v) (h : applySentinels dir pkg tests s = .ok s') :
+    aget k s' = some v := by
+  induction tests generalizing s with
+  | nil =>
+    simp [applySentinels] at h
+    subst h
+    exact hk
+  | cons e r ih =>
+    obtain ⟨f, coerce, sent, repl⟩ := e
+    have hc : coerce = false := hraw (f, coerce, sent, repl) (by simp)
+    subst hc
+    have hr : ∀ e ∈ r, e.2.1 = false := fun e he => hraw e (by simp [he])
+    simp only [applySentinels] at h
+    cases hh : sentinelHit false sent ((aget f s).getD .none) with
+    | none => simp [hh] at h
+    | some b =>
+      cases b with
+      | false =>
+        simp only [hh] at h
+        exact ih s hr hk h
+      | true =>
+        simp only [hh] at h
+        have hv' := sentinelHit_raw_true sent _ hh
+        have hne : k ≠ f := by
+          intro hkf
+          subst hkf
+          simp [hk] at hv'
+          exact hv sent hv'
+        exact ih _ hr (by rw [aget_aset_ne _ _ _ _ hne]; exact hk) h
+
+/-- the loop of `normalise_paths` acts field by field: each field holds the normalisation of
+    what it held, according to its declared type -/
+theorem aget_normAll (schema : List (Str × Tag × PyVal)) (dir : Str) (s s' : Settings) (k : Str) (v : PyVal)
+    (hk : aget k s = some v) (h : normAll schema dir s = .ok s') :
+    ∃ v', normField dir (tagOf schema k) v = .ok v' ∧ aget k s' = some v' := by
+  induction s generalizing s' with
+  | nil => simp [aget] at hk
+  | cons e r ih =>
+    obtain ⟨k2, v2⟩ := e
+    simp only [normAll] at h
+    cases h1 : normField dir (tagOf schema k2) v2 with
+    | error e => simp [h1] at h
+    | ok w =>
+      cases h2 : normAll schema dir r with
+      | error e => simp [h1, h2] at h
+      | ok r' =>
+        simp [h1, h2] at h
+        subst h
+        by_cases hkk : k2 = k
+        · subst hkk
+          simp [aget] at hk
+          subst hk
+          exact ⟨w, h1, by simp [aget]⟩
+        · simp [aget, hkk] at hk
+          obtain ⟨v', hv1, hv2⟩ := ih r' hk h2
+          exact ⟨v', hv1, by simp [aget, hkk, hv2]⟩
+
+theorem normAtoms_strs (dir : Str) (ps : List Str) :
+    normAtoms dir (ps.map .str) = some (ps.map (fun p => .path (normPath dir p))) := by
+  induction ps with
+  | nil => rfl
+  | cons p r ih => simp [normAtoms, normAtom, ih]
+
+/-- `normalise_paths` with raw sentinel tests, on a field that does not hold a `Path` object: the
+    field ends up with the normalisation (by its declared type) of what it held -/
+theorem aget_normalisePaths (schema : List (Str × Tag × PyVal)) (tests : List (Str × Bool × Str × SentinelRepl))
+    (dir pkg : Str) (s s' : Settings) (k : Str) (v : PyVal)
+    (hraw : ∀ e ∈ tests, e.2.1 = false)
+    (hd : k ≠ "directory".toList) (hu : k ≠ "project_url".toList)
+    (hk : aget k s = some v ∧ ∀ q, v ≠ .atom (.path q))
+    (h : normalisePaths schema tests dir pkg s = .ok s') :
+    ∃ v', normField dir (tagOf schema k) v = .ok v' ∧ aget k s' = some v' := by
+  unfold normalisePaths at h
+  generalize "directory".toList = D at hd h
+  generalize "project_url".toList = U at hu h
+  generalize getD "output_dir" = G at h
+  generalize getD "relative" = R at h
+  dsimp only at h
+  cases h1 : applySentinels dir pkg tests (aset D (.atom (.path dir)) s) with
+  | error e => rw [h1] at h; cases h
+  | ok s1 =>
+    have hk1 := aget_applySentinels_nonpath dir pkg tests _ s1 k v hraw hk.2
+      (by rw [aget_aset_ne _ _ _ _ hd]; exact hk.1) h1
+    rw [h1] at h
+    dsimp only at h
+    cases h2 : normAll schema dir s1 with
+    | error e => rw [h2] at h; cases h
+    | ok s2 =>
+      obtain ⟨v', hv1, hv2⟩ := aget_normAll schema dir s1 s2 k _ hk1 h2
+      refine ⟨v', hv1, ?_⟩
+      rw [h2] at h
+      dsimp only at h
+      split at h
+      · cases h
+        rw [aget_aset_ne _ _ _ _ hu]
+        exact hv2
+      · cases h
+        exact hv2
+
 end Ford.Settings
